@@ -13,7 +13,7 @@ Not decided: "resume within the retry budget" (liveness over fault sequences).
 import ast
 
 from ..model import self_attr, unparse, walk_body_shallow
-from .util import call_name, call_recv, calls_in, kwarg, need, node_assign_value, norm, where
+from .util import at, call_name, call_recv, calls_in, kwarg, need, node_assign_value, norm, where
 
 TECHNIQUE = "index-variable def-use in the merge, guard-fact dominance of removals, exhaustiveness of the invalidation table"
 EXPLANATION = (
@@ -129,7 +129,9 @@ def run(ctx):
         okf = flag is not None and not (used & assigned_inside)
         if okf and isinstance(flag, ast.Name):
             d = [x for x in walk_body_shallow(lm.body) if isinstance(x, ast.Assign) and unparse(x.targets[0]) == flag.id]
-            okf = len(d) == 1 and norm(d[0].value) == "not %s" % lm.node.args.vararg.arg if lm.node.args.vararg else False
+            va = lm.node.args.vararg.arg if lm.node.args.vararg else None
+            okf = len(d) == 1 and va is not None and norm(d[0].value) in (
+                "not %s" % va, "len(%s) == 0" % va, "0 == len(%s)" % va, "not len(%s)" % va, "%s == ()" % va, "len(%s) < 1" % va)
     r.check(okf, "%s#full-refresh-flag" % lm.qname, "the `all topics were fetched` flag is not computed from the caller's topic arguments "
             "(it reads a name re-bound inside the response handler)", where(lm, lm.node),
             "full refresh of a cluster with at least one topic: brokers missing from the reply are never closed")
@@ -209,7 +211,7 @@ def run(ctx):
     fm = ctx.facts(um)
     ws = [n for n in cm.nodes if node_assign_value(n, "host") is not None or node_assign_value(n, "port") is not None]
     p1 = um.params[1]
-    tests = [n for n in cm.nodes if n.kind == "test" and norm(n.stmt.test) in ("self.node_id != %s.node_id" % p1, "%s.node_id != self.node_id" % p1)]
+    tests = [n for n in cm.nodes if n.kind == "test" and norm(at(ctx, um, n.id, n.stmt.test)) in ("self.node_id != %s.node_id" % p1, "%s.node_id != self.node_id" % p1)]
     guarded = bool(tests) and all(cm.dominates([tests[0].id], n.id) for n in ws) and not any(
         n.id in cm.reach([t for t, lab in cm.succ[tests[0].id] if lab and lab[0] == "cond" and lab[2]]) for n in ws)
     r.check(len(ws) == 2 and guarded and
